@@ -49,7 +49,15 @@ class VFSZip(VFS_Real):
         (dir_, file) = os.path.split(self.zipfilename)
         return os.path.join(dir_, ".cache.pygopherd.zip3." + file)
 
+    def cache_on_disk(self) -> bool:
+        """The index is kept in a file next to the archive.  An archive that
+        is itself a member of another archive has no such place: its path
+        is not a path of the real file system."""
+        return type(self.chain) is VFS_Real
+
     def save_cache(self) -> bool:
+        if not self.cache_on_disk():
+            return False
         cache_filename = self.get_cache_filename()
         cache_fspath = self.chain.getfspath(cache_filename)
         try:
@@ -62,6 +70,9 @@ class VFSZip(VFS_Real):
             return True
 
     def init_cache(self) -> None:
+        if not self.cache_on_disk():
+            self.populate_cache()
+            return
         cache_filename = self.get_cache_filename()
         zipfile_mtime = self.chain.stat(self.zipfilename)[stat.ST_MTIME]
         try:
@@ -390,8 +401,11 @@ class ZIPHandler(BaseHandler):
         while True:
 
             if pattern.search(basename) and self.vfs.isfile(basename):
-                # is_zipfile() accepts filenames as bytes, but the type stub is incorrect
-                if zipfile.is_zipfile(self.vfs.getfspath(basename)):  # noqa
+                # Look at the file through the VFS: inside another archive
+                # its path does not name anything in the real file system.
+                with self.vfs.open(basename, "rb") as fp:
+                    iszip = zipfile.is_zipfile(fp)
+                if iszip:
                     self.basename = basename
                     self.appendage = appendage
                     return True
